@@ -258,7 +258,9 @@ func (h *Handler) SendMessageElement(ctx context.Context, s *xmpp.Session, paylo
 		msg.ID = attr.RandomID()
 	}
 
-	c := make(chan struct{})
+	// The channel is buffered and never closed so that the handler can always
+	// deliver the receipt without blocking, even if we give up waiting.
+	c := make(chan struct{}, 1)
 	h.m.Lock()
 	if h.sent == nil {
 		h.sent = make(map[string]chan struct{})
@@ -282,7 +284,6 @@ func (h *Handler) SendMessageElement(ctx context.Context, s *xmpp.Session, paylo
 		h.m.Lock()
 		delete(h.sent, msg.ID)
 		h.m.Unlock()
-		close(c)
 		return ctx.Err()
 	}
 }
